@@ -3,6 +3,7 @@ from __future__ import annotations
 
 from .common import *   # noqa: F401,F403
 from . import instr_gen as ig
+LEAF = ['Leaf_note']      # translated leaf functions this property's model relies on (Tie/<name>.v)
 
 RULE = ("one well-formed instrument section per case (note ticks non-decreasing): all 31 lane subsets + open, gaps incl. 1, chord as last group, "
         "forced/tap flag lines in every position of a group (incl. both flags on a five-lane chord), S 2 / E lines interleaved between the N lines of one tick; "
@@ -57,9 +58,9 @@ def cases(ctx, n):
         groups = ig.gen_groups(rng, R, rng.choice([1, 2, 3, 5, 8, 14]))
         lines = ig.section_lines(rng, groups, R)
         if rng.random() < 0.25:
-            lines = [ig.exotic_line(rng, l) if rng.random() < 0.6 else l for l in lines]
+            lines = [(ig.exotic_line(rng, l) if rng.random() < 0.7 else ig.zero_pad(rng, l)) if rng.random() < 0.6 else l for l in lines]
         tm = ig.gen_tempo(rng, R, groups[-1]["tick"])
-        header = rng.choice(["ExpertSingle", "ExpertSingle", "HardDoubleBass", "EasyDrums", "MediumGHLGuitar"])
+        header = pick_header(rng, 0.4)
         out.append(make_case(R, tm, groups, lines, header))
     return out
 
